@@ -1,6 +1,6 @@
 (* C06 — Replay protection: a signed transaction takes effect at most once.  Statement of record. *)
 From Coq Require Import NArith List Bool.
-From V Require Import Bytes Proto Replay ProtoProofs ReplayProofs.
+From V Require Import Bytes Proto Replay ProtoProofs ReplayProofs Nonce NonceProofs.
 Import ListNotations.
 Local Open Scope N_scope.
 
@@ -45,3 +45,26 @@ Example C06_variants_decode_alike :
   decode_tx (encode_tx ex_tx ++ [58; 0]) = Some ex_tx /\ canonical (encode_tx ex_tx ++ [58; 0]) = false /\
   decode_tx (encode_tx ex_tx ++ [48; 144; 206; 0]) = Some ex_tx /\ canonical (encode_tx ex_tx ++ [48; 144; 206; 0]) = false.
 Proof. exact ex_variants. Qed.
+
+(* ---- nonce-based (Ethereum-wrapped, memo RLP.V2) transactions.  The height window does not apply to them; the account nonce
+   floor alone must make every signed content (sender, nonce, payload) execute at most once - also when the same bytes come
+   back arbitrarily late and whatever else is offered in between.  The transaction index is not consulted by these theorems. *)
+Theorem C06_nonce_no_replay :
+  forall f ts l1 a l2, snd (offer_all f ts) = l1 ++ a :: l2 -> forall b, In b l2 -> same_content a b = false.
+Proof. exact nonce_no_replay. Qed.
+Print Assumptions C06_nonce_no_replay.
+Theorem C06_nonce_executed_stays_rejected :
+  forall f ts a more b, In a (snd (offer_all f ts)) -> same_content a b = true ->
+  accept (fst (offer_all (fst (offer_all f ts)) more)) b = false.
+Proof. exact nonce_executed_stays_rejected. Qed.
+(* below the floor, the reserved maximal nonce, or a wrapper that is not the conversion of the signed transaction: no effect *)
+Theorem C06_nonce_rejected_no_effect :
+  forall f t, (n_nonce t < floor_of f (n_sender t) \/ n_nonce t = max_u64 \/ n_wrapper_ok t = false) -> exec f t = (f, false).
+Proof. exact nonce_rejected_no_effect. Qed.
+Theorem C06_nonce_gap_closes :
+  forall f t, accept f t = true -> forall u, n_sender u = n_sender t -> n_nonce u <= n_nonce t -> accept (fst (exec f t)) u = false.
+Proof. exact nonce_gap_closes. Qed.
+Example C06_nonce_nonvacuous :
+  snd (offer_all [] [mkNTx 1 2 7 true; mkNTx 1 2 7 true; mkNTx 1 1 8 true; mkNTx 1 5 9 true; mkNTx 2 0 7 true; mkNTx 1 5 9 false])
+  = [mkNTx 1 2 7 true; mkNTx 1 5 9 true; mkNTx 2 0 7 true].
+Proof. exact nonce_nonvacuous. Qed.
